@@ -29,6 +29,7 @@ for s, (f, l) in sigs.items():
     if r:
         repeats[s] = sorted(r)
 
+earlier = json.load(open('/verif/seeded/earlier_runs.json'))
 rows = []
 for sid in sorted(sigs):
     d = os.path.join(root, sid)
@@ -42,12 +43,15 @@ for sid in sorted(sigs):
             det[p] = sorted(set(re.findall(r'rule=([A-Za-z0-9/_-]+)', txt)))
         elif 'ERROR property=' in txt:
             det[p] = ['(undecided: fail closed)']
-    rows.append((sid, prop, det, ran))
+    # checks that were not re-run in the final matrix: result of the earlier run of the same check (marked with a dagger)
+    old = {p: r for p, r in earlier.get(sid, {}).get('fired', {}).items() if p not in ran}
+    rows.append((sid, prop, det, ran, old))
     mp = f'/verif/seeded/{sid}/meta.json'
     m = json.load(open(mp))
     if ran:
         m['detected_by'] = det if det else 'no check'
         m['checks_run_in_final_matrix'] = ran
+        m['fired_in_an_earlier_run_not_repeated'] = old
         m['own_property_check_fires'] = prop in det
         if sid in repeats:
             m['repeats_change_of'] = repeats[sid]
@@ -56,14 +60,14 @@ for sid in sorted(sigs):
 def table(r):
     print('| seed | own property check | rules that fire under the own property | checks of other properties that also fire |')
     print('|---|---|---|---|')
-    for sid, prop, det, ran in rows:
+    for sid, prop, det, ran, old in rows:
         if rnd(sid) != r:
             continue
         if not ran:
             print(f'| {sid} | (not run) | | |')
             continue
         o = ', '.join(det.get(prop, [])) or '**none**'
-        others = '; '.join(f'{p}: {", ".join(x)}' for p, x in det.items() if p != prop) or '-'
+        others = '; '.join([f'{p}: {", ".join(x)}' for p, x in det.items() if p != prop] + [f'{p}\u2020: {", ".join(x)}' for p, x in sorted(old.items()) if p != prop]) or '-'
         rep = f' (repeats {", ".join(repeats[sid])})' if sid in repeats else ''
         print(f'| {sid}{rep} | {"fires" if prop in det else "**quiet**"} | {o} | {others} |')
     sel = [x for x in rows if rnd(x[0]) == r and x[3]]
